@@ -9,6 +9,7 @@ package main
 // finite family rather than for every input; the evidence says so.
 
 import (
+	"os"
 	"fmt"
 	"go/types"
 	"math/rand"
@@ -313,6 +314,9 @@ func parserBounded(p *Prog) *boundedParser {
 		} else {
 			res.nClass[class]++
 		}
+		if os.Getenv("GDSA_DEBUG") == "c04words" && class == "two-numbers-in-version" {
+			fmt.Fprintf(os.Stderr, "word %q accepted=%v\n", in, errNil)
+		}
 		if wantOK && !errNil {
 			res.langBy["valid"] = append(res.langBy["valid"], fmt.Sprintf("the well-formed field %q is rejected", in))
 		}
@@ -349,10 +353,31 @@ func parserBounded(p *Prog) *boundedParser {
 	for _, k := range names {
 		mn := compileRx(mal[k])
 		for _, w := range mn.words(alpha.N(), 8, 250, 150, 30, 7) {
-			for _, s := range spell(alpha, w)[:1] {
-				res.nMal++
-				if !check(s, false, k) {
-					return res
+			for _, s := range spell(alpha, w) { // both spellings, and every blank as a tab and as a line feed too
+				variants := []string{s}
+				if !strings.HasPrefix(k, "unterminated") {
+					// the shortest words of a class stop where the mistake is made: also try them with their brackets closed,
+					// which is how such a field looks in the wild (and still belongs to the class)
+					closed := s
+					for _, pr := range [][2]string{{"(", ")"}, {"[", "]"}, {"<", ">"}, {"{", "}"}} {
+						for n := strings.Count(s, pr[0]) - strings.Count(s, pr[1]); n > 0; n-- {
+							closed += pr[1]
+						}
+					}
+					if closed != s {
+						variants = append(variants, closed)
+					}
+				}
+				for _, v := range append([]string(nil), variants...) {
+					if strings.Contains(v, " ") {
+						variants = append(variants, strings.ReplaceAll(v, " ", "\t"), strings.ReplaceAll(v, " ", "\n"))
+					}
+				}
+				for _, v := range variants {
+					res.nMal++
+					if !check(v, false, k) {
+						return res
+					}
 				}
 			}
 		}
